@@ -11,6 +11,7 @@ import (
 	"sort"
 	"strconv"
 	"strings"
+	"sync/atomic"
 	"time"
 
 	"gitee.com/xuesongtao/protoc-go-valid/valid"
@@ -313,8 +314,118 @@ func (w *walkCall) galCfg() string {
 		"; c_local := " + galFnRegs(w.Local) + "; c_global := " + galFnRegs(w.Global) + "; c_orc := " + w.Orc.gal() + " |}"
 }
 
+// ---------- priming ----------
+// Before one measured call in three, a handful of unrelated calls are made and their results dropped: refused calls
+// (nil or unsupported sources) that carry rules, calls that carry per-call functions under every built-in rule name, and
+// the exported text helpers on their rarely taken branches.  A correct library is unaffected (C12: a call's result
+// depends on its own arguments only); state that survives in a pool, a cache or a reused buffer shows up in the
+// measured call as a clause nobody asked for, or as a clause that is missing.
+var primeCounter uint64
+
+type primeT struct {
+	X int    `valid:"ge=1"`
+	S string `valid:"required"`
+}
+
+var builtinRuleNames = []string{"required", "exist", "either", "botheq", "to", "ge", "le", "oto", "gt", "lt", "eq", "noeq", "in", "include",
+	"phone", "email", "idcard", "year", "year2month", "date", "datetime", "int", "ints", "float", "re", "ip", "ipv4", "ipv6", "unique",
+	"json", "prefix", "suffix", "file", "dir"}
+
+func quietly(f func()) {
+	defer func() { _ = recover() }()
+	f()
+}
+
+func prime() {
+	n := atomic.AddUint64(&primeCounter, 1)
+	if n%3 != 0 {
+		return
+	}
+	noop := func(errBuf *strings.Builder, validName, objName, fieldName string, tv reflect.Value) {}
+	const big = "ge=999999999|M9PRIMED"
+	// refused calls that carry rules: the pooled object they used must not reach a later call with them
+	refused := func() {
+		quietly(func() {
+			_ = valid.NewVStruct().SetRule(valid.RM{"X": big, "S": "required|M9PRIMED"}).Valid((*primeT)(nil))
+		})
+		quietly(func() { _ = valid.NewVStruct().SetRule(valid.RM{"X": big}).Valid(7) })
+		quietly(func() { _ = valid.NewVMap().SetRule(valid.RM{"k": big}).Valid(nil) })
+		quietly(func() { _ = valid.NewVMap().SetRule(valid.RM{"k": big}).Valid(7) })
+		quietly(func() { _ = valid.NewVUrl().SetRule(valid.RM{"k": big}).Valid("") })
+		quietly(func() { _ = valid.Var(make(chan int), big) })
+		quietly(func() { _ = valid.Var(nil, big) })
+		quietly(func() { _ = valid.Var((*int)(nil), big, "required|M9PRIMED") })
+	}
+	// accepted calls that carry a do-nothing function under every built-in rule name
+	withFns := func() {
+		quietly(func() {
+			vs := valid.NewVStruct()
+			for _, n := range builtinRuleNames {
+				vs.SetValidFn(n, noop)
+			}
+			_ = vs.Valid(&primeT{X: 1, S: "s"})
+		})
+		quietly(func() {
+			fns := valid.Name2FnMap{}
+			for _, n := range builtinRuleNames {
+				fns[n] = noop
+			}
+			_ = valid.StructForFns(&primeT{X: 1, S: "s"}, valid.RM{"X": "ge=1"}, fns)
+		})
+		quietly(func() {
+			vm := valid.NewVMap().SetRule(valid.RM{"k": "ge=1"})
+			for _, n := range builtinRuleNames {
+				vm.SetValidFn(n, noop)
+			}
+			_ = vm.Valid(map[string]int{"k": 1})
+		})
+		quietly(func() {
+			vu := valid.NewVUrl().SetRule(valid.RM{"k": "ge=1"})
+			for _, n := range builtinRuleNames {
+				vu.SetValidFn(n, noop)
+			}
+			_ = vu.Valid("http://h/p?k=1")
+		})
+		quietly(func() {
+			vv := valid.NewVVar().SetRules("ge=1")
+			for _, n := range builtinRuleNames {
+				vv.SetValidFn(n, noop)
+			}
+			_ = vv.Valid(1)
+		})
+	}
+	// the exported text helpers, on their rarely taken branches
+	helpers := func() {
+		quietly(func() { _ = valid.GenValidKV("M9PRIMED") })
+		quietly(func() { _ = valid.GenValidKV("in", "M9PRIMED", "M9PRIMED") })
+		quietly(func() { _ = valid.ValidNamesSplit("M9PRIMED='a,b',M9PRIMED") })
+		quietly(func() { _, _, _ = valid.ParseValidNameKV("M9PRIMED=1|M9PRIMED") })
+		quietly(func() { _ = valid.ToStr(1.5) })
+		quietly(func() { _ = valid.GetOnlyExplainErr("\"P\" input \"1\", explain: M9PRIMED; ") })
+		quietly(func() { _ = valid.GetJoinFieldErr("P", "P", "explain: M9PRIMED") })
+		quietly(func() { _ = valid.GetJoinFieldErr("", "", fmt.Errorf("explain: M9PRIMED")) })
+		quietly(func() { _ = valid.GetJoinValidErrStr("P", "P", "explain: M9PRIMED") })
+	}
+	// which family comes last decides what a pool hands to the measured call
+	switch (n / 3) % 3 {
+	case 0:
+		withFns()
+		helpers()
+		refused()
+	case 1:
+		refused()
+		helpers()
+		withFns()
+	default:
+		refused()
+		withFns()
+		helpers()
+	}
+}
+
 // run executes the call on the implementation; returns (err, panicked, panic text)
 func (w *walkCall) run() (err error, panicked bool, ptext string) {
+	prime()
 	defer func() {
 		if p := recover(); p != nil {
 			panicked = true
@@ -351,8 +462,20 @@ func (w *walkCall) run() (err error, panicked bool, ptext string) {
 		case len(w.Typed) == 0 && len(w.Local) == 0 && w.HasUnsc && w.Tag != "":
 			err = valid.ValidStructForRule(valid.RM(w.Unscoped), w.Src, w.Tag)
 			return
-		case len(w.Typed) == 0 && len(w.Local) > 0 && w.HasUnsc && w.Tag == "":
+		case len(w.Typed) == 0 && len(w.Local) > 0 && w.HasUnsc && w.Tag == "" && !w.EmptyTag:
 			err = valid.StructForFns(w.Src, valid.RM(w.Unscoped), fnMap())
+			return
+		case len(w.Typed) == 0 && len(w.Local) > 0 && w.HasUnsc && w.Tag != "":
+			err = valid.StructForFns(w.Src, valid.RM(w.Unscoped), fnMap(), w.Tag)
+			return
+		case len(w.Typed) == 0 && len(w.Local) == 1 && !w.HasUnsc && !w.EmptyTag:
+			for name, tag := range w.Local {
+				if w.Tag == "" {
+					err = valid.ValidStructForMyValidFn(w.Src, name, markFn(tag))
+				} else {
+					err = valid.ValidStructForMyValidFn(w.Src, name, markFn(tag), w.Tag)
+				}
+			}
 			return
 		case len(w.Typed) > 0 && len(w.Local) == 0 && !w.HasUnsc && w.Tag == "":
 			rules := map[interface{}]valid.RM{}
@@ -419,6 +542,12 @@ func (w *walkCall) run() (err error, panicked bool, ptext string) {
 	case "url":
 		if len(w.Local) == 0 {
 			err = valid.Url(w.Src, valid.RM(w.Rules))
+			return
+		}
+		if len(w.Local) == 1 && len(w.Rules) == 0 {
+			for name, tag := range w.Local {
+				err = valid.UrlForFn(w.Src, name, markFn(tag))
+			}
 			return
 		}
 		vu := valid.NewVUrl().SetRule(valid.RM(w.Rules))
